@@ -116,10 +116,6 @@ def _manage_log_level_via_verbosity(method_with_verbose_kwarg, calls=[0]):
 
     @wraps(method_with_verbose_kwarg)
     def verbose_override_wrapper(*args, **kwargs):
-        # Increment indicates that one decorated function has started
-        # execution
-        calls[0] += 1
-
         # Deliberately error if verbose kwarg not set, if not by user
         # then as a default to the decorated function, as this is
         # crucial to usage.
@@ -159,6 +155,11 @@ def _manage_log_level_via_verbosity(method_with_verbose_kwarg, calls=[0]):
             else:
                 raise ValueError(invalid_arg_msg)
 
+        # Increment indicates that one decorated function has started
+        # execution. This must come after the 'verbose' validation, so
+        # that a rejected call is never counted.
+        calls[0] += 1
+
         # First need to (temporarily) re-enable global logging if
         # disabled in the cases where you do not want to disable it
         # anyway:
@@ -182,12 +183,12 @@ def _manage_log_level_via_verbosity(method_with_verbose_kwarg, calls=[0]):
             # would mean any subsequent code in the outer function
             # would undesirably regain the global level):
             if calls[0] == 0:
+                # Restore the global log level and the logging-enabled
+                # state, whichever of this call and the decorated
+                # calls nested inside it overrode them
+                _reset_log_emergence_level(log_level())
                 if verbose == 0:
                     _disable_logging(at_level="NOTSET")  # lift deactivation
-                elif verbose is not None and _is_valid_log_level_int(verbose):
-                    _reset_log_emergence_level(log_level())
-                if log_level() == "DISABLE" and verbose != 0:
-                    _disable_logging()  # disable again after re-enabling
 
     return verbose_override_wrapper
 
